@@ -118,7 +118,10 @@ CHECKS["C20"] = {
     "rule": "a case is one generated broker/connector configuration with 1-3 dials; distinct = distinct event-log hash (which includes the arrival order of every accept, reply and connection); non-trivial = the scheduler had a choice.",
     "real": ["ccb.Dial (dialStandard, dialProxy, acceptReversed, proxyRequestOnStream, broker race)", "security client handshake with the broker", "stream/message framing"],
     "stub": _SIM + ["scripted brokers and reverse connectors", "TCP dial and listen of the requester (verif hooks)"],
-    "assumptions": ["math/rand broker shuffle seeded per run", _SAMPLING],
+    "replay_retries": 6,
+    "assumptions": ["math/rand broker shuffle seeded per run",
+                    "residual nondeterminism: ccb.Dial selects over several channels; when two are ready at the same virtual instant Go picks one with runtime randomness the simulator cannot seed (about 3% of runs differ between two executions of the same seed: measured by vcheck selftest); a violation's replay is therefore attempted up to 7 times",
+                    _SAMPLING],
 }
 
 CHECKS["C16"] = {
